@@ -20,6 +20,24 @@ def shard(i, n, args):
         e = fails.setdefault(key, {"count": 0, "witness": wit})
         e["count"] += 1
 
+    # history: every class of the package has already been parsed and serialised once in this process
+    # (on another converter) before any attribute is judged - a per-process or per-shape cache shared
+    # between classes must not leak one class's rule into another (the shards split the classes)
+    warm = py.cv.get_converter()
+    order = py.roots(("S", "REQ", "RESP", "NOTIF", "AND"))
+    if i % 2:
+        order = order[::-1]
+    for root in order:
+        if root.cls is None:
+            continue
+        try:
+            g = TGen(mm, rng_for(seed, "C10-warm", root.label), maxdepth=1, p_opt=0.0)
+            o = warm.structure(to_json(g.gen(root.t)), root.cls)
+            warm.unstructure(o, root.cls)
+            py.conv.unstructure(o, root.cls)
+            res["warmup"] = res.get("warmup", 0) + 1
+        except Exception:
+            pass
     for root in ctx.select_roots(py, i, n, kinds=("S", "REQ", "RESP", "NOTIF", "AND")):
         if root.cls is None:
             continue
@@ -125,6 +143,7 @@ def main(tier):
         "rule": "every property of every structure / request / response / notification / and-type class, K surrounding variations each: set -> key written; unset -> written iff null-admitting, literal or envelope field; absent on parse -> None / literal.  Expected table from the metamodel.  non-trivial = distinct (class, attribute)",
         "attributes": attrs_n,
         "attribute_categories": kinds,
+        "classes_exercised_before_judging_per_process": max([r.get("warmup", 0) for r in results] or [0]),
         "exhaustive": True,
         "samples": samples or [{}],
     }
